@@ -18,6 +18,7 @@ fn tables_of(st: &VerifState) -> i64 {
 
 fn mark_forgotten(ids: impl Iterator<Item = u64>) {
     ctx::with(|c| {
+        c.zst_slack = true;
         for id in ids {
             if id != 0 {
                 if let Some(o) = c.ledger.get_mut(&id) {
@@ -84,14 +85,21 @@ impl<K: KeyT, V: ValT> World<K, V> {
                 }
                 self.post_map(acc, mi, before, stats, Cost::Exempt, false, 0, true);
             }
-            Err(pn) => self.handle_panic(acc, pn, &[]),
+            Err(pn) => {
+                if let Panic::Injected(ctx::Site::Drop, _) = &pn {
+                    acc.probe(if before.split && before.old_len > 0 { if K::CLASS.is_zst() { "retain-destructor-panicked-during-resize-zero-sized" } else { "retain-destructor-panicked-during-resize" } } else { "retain-destructor-panicked" });
+                }
+                self.handle_panic(acc, pn, &[])
+            }
         }
     }
 
     pub(crate) fn op_drain_filter(&mut self, acc: &mut Acc, mi: usize, pred: &Pred, mutate: Option<u32>, consume: Consume, drop_panic: Option<u32>) {
         // only tracked values have destructors the simulator owns
-        let drop_panic = if K::CLASS == ElemClass::Tracked { drop_panic } else { None };
-        ctx::with(|c| c.drop_fuse = drop_panic.map(|n| n as u64));
+        let drop_panic = if K::CLASS.has_drop() { drop_panic } else { None };
+        if let Some(n) = drop_panic {
+            ctx::with(|c| c.drop_fuse = Some(n as u64));
+        }
         let before = self.maps[mi].m.verif_state();
         let mutate = mutate.map(V::norm);
         let take = self.maps[mi].eval_pred(pred);
@@ -800,7 +808,7 @@ impl<K: KeyT, V: ValT> World<K, V> {
             acc.internal("capacity-below-len", format!("capacity()={} < len()={}", cap, len));
             return;
         }
-        if K::CLASS == ElemClass::Zst {
+        if K::CLASS.is_zst() {
             acc.out.res = "probe skipped (one possible key)".to_string();
             return;
         }
